@@ -1238,7 +1238,10 @@ pub fn features_case(inp: &Input, gc_runs: u32) -> Value {
     sets.push(json!({"removed": ["<all but the minimal set>"], "inv": true, "outv": outv.is_ok(), "why": outv.err().map(|e| run::short(&e)).unwrap_or_default()}));
     let inm = absmod::project(&inp.bytes).unwrap_or_default();
     let outm = absmod::project(&rt.out).unwrap_or_default();
-    json!({"id": format!("{}~gc{}", inp.id, gc_runs), "source": inp.source, "outcome": "ok", "needs": needs, "sets": sets,
+    // valid once every proposal the independent validator knows is switched on (GC, function references, ... : more than
+    // walrus speaks)?
+    let out_valid_beyond = absmod::validate_with(&rt.out, wasmparser::WasmFeatures::all()).is_ok();
+    json!({"id": format!("{}~gc{}", inp.id, gc_runs), "source": inp.source, "outcome": "ok", "needs": needs, "sets": sets, "out_valid_beyond": out_valid_beyond,
            "in_datacount": inm.datacount >= 0, "out_datacount": outm.datacount >= 0,
            "in_elem_flags": inm.elems.iter().map(|e| e.flag).collect::<Vec<_>>(), "out_elem_flags": outm.elems.iter().map(|e| e.flag).collect::<Vec<_>>(),
            "in_data_flags": inm.data.iter().map(|e| e.flag).collect::<Vec<_>>(), "out_data_flags": outm.data.iter().map(|e| e.flag).collect::<Vec<_>>()})
